@@ -191,10 +191,11 @@ def main(argv):
     known = [(i, t) for i, (t, known) in enumerate(verdicts) if t and known]
     seen_known = set()
     for i, t in known:
-        key = 'kernel-gap' if cases[i]['kind'] == 'kernel' else 'double-counted-literal'
+        key = 'vop3a-opcode-499-missing' if cases[i]['kind'] == 'kernel' else 'literal-dword-counted-twice'
         if key not in seen_known:
             seen_known.add(key)
-            rep.known_finding(t)
+            rep.known_finding(t, key=key, replay_obj={'property': PROP, 'what': t,
+                                                      'case': {k: v for k, v in cases[i].items() if k != 'coq'}})
 
     # ---- correspondence with the model
     mism, okc, clog = [], True, ''
